@@ -197,6 +197,12 @@ def prepare_persistence_overlay(o):
     txt = txt.replace("std::fs::rename(", "crate::verif_fs::rename(")
     o.write("persistence.rs", txt)
     o.edits.append(("persistence.rs", "kani overlay: %d std::fs::rename call(s) -> crate::verif_fs::rename" % n))
+    # error *text* is not the subject of any property and Display-formatting an anyhow::Error chain is very expensive to
+    # execute symbolically: the two `write_err.to_string()` calls that only feed a context message become empty strings
+    k = txt.count("let write_err_msg = write_err.to_string();")
+    txt = txt.replace("let write_err_msg = write_err.to_string();", "let write_err_msg = String::new(); let _ = &write_err;")
+    o.write("persistence.rs", txt)
+    o.edits.append(("persistence.rs", "kani overlay: %d `write_err.to_string()` (context message text) -> String::new()" % k))
 
 
 FP = [("persistence.rs", "create_with_error_handler"), ("persistence.rs", "append_internal"), ("persistence.rs", "write_entry"), ("persistence.rs", "perform_fsync")]
